@@ -11,6 +11,32 @@ from props import grading_common as gc
 from props import C02 as c02
 
 
+def gen_far_chops(rng):
+    n = rng.randint(4, 6)
+    d = rng.randrange(3)
+    cells = [tuple(i if k == d else 0 for k in range(3)) for i in range(n)]
+    perms = [rng.choice(gc.ROT24) for _ in cells]
+    order = list(range(n))
+    rng.shuffle(order)
+    asm = gc.Assembly(cells, perms, {}, {}, order)
+    # families: each block's direction along the row is its own family; the two directions across the row span all blocks
+    fams = gc.families(asm)
+    a = rng.choice([2, 3, 5])
+    b = a if rng.random() < 0.35 else rng.choice([x for x in (2, 3, 4, 5, 7, 15) if x != a])
+    for fam in fams:
+        blocks = sorted({x[0] for x in fam})
+        if len(blocks) == 1:
+            asm.chops[fam[0]] = [dict(count=rng.choice([1, 2, 3]))]
+            continue
+        first = [x for x in fam if x[0] == 0][0]
+        last = [x for x in fam if x[0] == n - 1][0]
+        asm.chops[first] = [dict(count=a)]
+        if rng.random() < 0.75:
+            asm.chops[last] = [dict(count=b)]
+    asm.mode = "far-chops"
+    return asm
+
+
 class C01(Prop):
     pid = "C01"
     prebuilt = gc.PREBUILT
@@ -37,6 +63,10 @@ class C01(Prop):
             spec.append((asm, None))
             if i % 2 == 0:
                 spec.append((asm, c02.make_prio(rng)))
+        # chops that meet (agree or conflict) only through a chain of un-chopped blocks: a row of 4..6 boxes, the two end
+        # boxes chopped across the row, every insertion order equally likely
+        for i in range(ctx.n(40, 600)):
+            spec.append((gen_far_chops(rng), None if i % 3 else c02.make_prio(rng)))
         done = c02.corr_grading(ctx, res, spec, "c01")
         res.samples = [dict(assembly=a.to_json(), injected=inj, outcome=r["outcome"], counts=r.get("counts")) for (a, inj, r) in done[:3]]
         return res
